@@ -252,6 +252,7 @@ package cache
 //@   ensures [C18.read.miss] c.t.Stat != nil && !skipRead(ctx) && !found ==> onlyMetric(MetricMiss, 1.0)
 //@   ensures [C18.read.hit] c.t.Stat != nil && !skipRead(ctx) && found && !isExpiredAt(e, now(1)) ==> onlyMetric(MetricHit, 1.0)
 //@   ensures [C18.read.expired] c.t.Stat != nil && !skipRead(ctx) && found && isExpiredAt(e, now(1)) ==> onlyMetric(MetricExpired, 1.0)
+//@   ensures [C18.read.nostat] c.t.Stat == nil ==> noMetric()
 //@   modifies H|TraitEntry|.C @stat @log G|clock G|clk G|nclk
 
 // Write: view' = view[k -> (v, E)], E per C10; other hashes untouched; a colliding key is dropped (a miss, C09);
@@ -439,6 +440,7 @@ package cache
 //@   ensures [C18.sm.read.miss] c.t.Stat != nil && !skipRead(ctx) && !found ==> onlyMetric(MetricMiss, 1.0)
 //@   ensures [C18.sm.read.hit] c.t.Stat != nil && !skipRead(ctx) && found && !isExpiredAt(e, now(1)) ==> onlyMetric(MetricHit, 1.0)
 //@   ensures [C18.sm.read.expired] c.t.Stat != nil && !skipRead(ctx) && found && isExpiredAt(e, now(1)) ==> onlyMetric(MetricExpired, 1.0)
+//@   ensures [C18.sm.read.nostat] c.t.Stat == nil ==> noMetric()
 //@   modifies H|TraitEntry|.C @stat @log G|clock G|clk G|nclk
 
 //@ func (*syncMap).Write
@@ -527,7 +529,8 @@ package cache
 //@       abs(real(n) * (1.0 - arg("Trait.Evict", 1, 1)) - real(L) * (1.0 - frac)) <= real(n) / 1125899906842624.0
 //@   ensures [C12.amount.other] calls("Trait.Evict") == 1 && !co ==> arg("Trait.Evict", 1, 1) == frac
 //@   ensures [C18.evict.metric] c.Stat != nil && calls("Trait.Evict") == 1 ==>
-//@       metric(MetricEvict) == old(metric(MetricEvict)) + real(res("Trait.Evict", 1, 0))
+//@       abs(metric(MetricEvict) - old(metric(MetricEvict)) - real(res("Trait.Evict", 1, 0)))
+//@         <= abs(real(res("Trait.Evict", 1, 0))) / 9007199254740992.0
 //@   ensures [C18.evict.none] calls("Trait.Evict") == 0 ==> noMetric()
 
 // ---------------------------------------------------------------------------------------------------
@@ -602,6 +605,8 @@ package cache
 //@   ensures [C05.rf.miss] on && !cached ==> result == nil
 //@   ensures [C02.rf.prov] result != nil ==> errProv(kb, result)
 //@   ensures [C05.rf.frame] on ==> mapKept(em) && entriesKept()
+//@   ensures [C18.rf.metrics] metric(MetricBuild) == old(metric(MetricBuild)) && metric(MetricRefreshed) == old(metric(MetricRefreshed))
+//@       && metric(MetricFailed) == old(metric(MetricFailed))
 //@   modifies H|TraitEntry|.C @stat @log @clock
 
 // doBuild: exactly one builder invocation, under the build token of the key (C01), with the caller's context
@@ -614,7 +619,6 @@ package cache
 //@   requires [C01.tok.need] tok(bytes(key))
 //@   requires abs(ttlOf(ctx)) <= 1577880000000000000
 //@   requires f.config.FailedUpdateTTL > -1 ==> f.Errors.shardedMap.t.Stat == f.stat
-//@   requires [C04.observe.stat] f.config.ObserveMutability ==> f.stat != nil
 //@   let kb := old(bytes(key))
 //@   let bval := res(buildFunc, 1, 0)
 //@   let berr := res(buildFunc, 1, 1)
@@ -684,7 +688,6 @@ package cache
 //@   requires abs(ttlOf(*ctx)) <= 1577880000000000000
 //@   requires [C06.bg.detached] dyntype(*ctx, detachedContext)
 //@   requires (*f).config.FailedUpdateTTL > -1 ==> (*f).Errors.shardedMap.t.Stat == (*f).stat
-//@   requires [C04.observe.stat] (*f).config.ObserveMutability ==> (*f).stat != nil
 //@   ensures [C01.bg.once] calls(doBuild) == 1 && arg(doBuild, 1, 1) == old(*ctx) && bytes(arg(doBuild, 1, 2)) == old(bytes(*key))
 //@   ensures [C04.bg.released] closed((*keyLock).lock)
 
